@@ -115,6 +115,52 @@ func TestC15(t *testing.T) {
 		}
 		pols = append(pols, pol{true, l})
 	}
+	// look-alike lists: a listed name that is a proper prefix / suffix / substring of an admin method that is NOT listed
+	// (GetNamespace ~ GetNamespaceReplicationMessages, GetWorkflowExecutionRawHistory ~ ...V2, a WorkflowService name inside
+	// an AdminService one), in first, middle and last position of a list of several entries; and entries that would mean
+	// something to a pattern matcher ("Get", ".*", "Describe.*", "*") but are just strings that name no method
+	{
+		var pairs [][2]string
+		for _, a := range all {
+			for _, b := range admin {
+				if a.Name != b.Name && strings.Contains(b.Name, a.Name) {
+					pairs = append(pairs, [2]string{a.Name, b.Name})
+				}
+			}
+		}
+		e.Stats["extra"].(map[string]int)["lookalike_name_pairs"] = len(pairs)
+		nLook := 5
+		if e.Thorough() {
+			nLook = len(pairs)
+		}
+		other := func(not ...string) string {
+			for {
+				c := admin[rng.IntN(len(admin))].Name
+				ok := true
+				for _, n := range not {
+					ok = ok && c != n
+				}
+				if ok {
+					return c
+				}
+			}
+		}
+		for i, pi := range rng.Perm(len(pairs)) {
+			if i >= nLook {
+				break
+			}
+			a, b := pairs[pi][0], pairs[pi][1]
+			switch i % 3 {
+			case 0:
+				pols = append(pols, pol{true, []string{a, other(b)}})
+			case 1:
+				pols = append(pols, pol{true, []string{other(b), a, other(b)}})
+			default:
+				pols = append(pols, pol{true, []string{other(b), a}})
+			}
+		}
+		pols = append(pols, pol{true, []string{"Get", "Describe.*", other()}}, pol{true, []string{other(), ".*"}}, pol{true, []string{"*", other(), "Namespace"}})
+	}
 	transports := []string{"tcp", "mux"}
 	for pi, p := range pols {
 		for _, tr := range transports {
